@@ -177,6 +177,48 @@ func vfsWrite(h *os.File, b []byte) (int, error) {
 
 func vfsWriteString(h *os.File, s string) (int, error) { return vfsWrite(h, []byte(s)) }
 
+// vfsReadFrom models (*os.File).ReadFrom (io.Copy's fast path): plain read/write loop.
+func vfsReadFrom(h *os.File, r io.Reader) (int64, error) {
+	var total int64
+	buf := make([]byte, 64)
+	for {
+		n, err := r.Read(buf)
+		if n > 0 {
+			if _, werr := vfsWrite(h, buf[:n]); werr != nil {
+				return total, werr
+			}
+			total += int64(n)
+		}
+		if err == io.EOF {
+			return total, nil
+		}
+		if err != nil {
+			return total, err
+		}
+	}
+}
+
+// vfsWriteTo models (*os.File).WriteTo.
+func vfsWriteTo(h *os.File, w io.Writer) (int64, error) {
+	var total int64
+	buf := make([]byte, 64)
+	for {
+		n, err := vfsRead(h, buf)
+		if n > 0 {
+			if _, werr := w.Write(buf[:n]); werr != nil {
+				return total, werr
+			}
+			total += int64(n)
+		}
+		if err == io.EOF {
+			return total, nil
+		}
+		if err != nil {
+			return total, err
+		}
+	}
+}
+
 func vfsSeek(h *os.File, offset int64, whence int) (int64, error) {
 	d, err := vfsFDOf(h)
 	if err != nil {
